@@ -17,6 +17,9 @@
 //! hang (5 s watchdog) is attributed to the case that was running.
 
 pub mod child;
+mod containers;
+mod rae;
+mod sigs;
 mod esk;
 mod regions;
 mod regions2;
@@ -63,8 +66,9 @@ pub fn guard<T>(f: impl FnOnce() -> T) -> Result<T, String> {
                 "panic".to_string()
             };
             let loc = LAST_PANIC_LOC.lock().map(|g| g.clone()).unwrap_or_default();
+            // paths inside the rpgp tree are shown relative to it (wherever the tree lives)
             let loc = match loc.rfind("/src/") {
-                Some(p) if loc.contains("/repo/") => loc[p + 1..].to_string(),
+                Some(p) if !loc.contains("/.cargo/") && !loc.contains("/rustc/") && !loc.contains("/harness/") => loc[p + 1..].to_string(),
                 _ => loc,
             };
             Err(format!("{msg} @ {loc}"))
@@ -210,6 +214,15 @@ pub fn run(ctx: &mut Ctx) {
     let t2 = std::time::Instant::now();
     sweeps::run(ctx, &ring);
     ctx.note(&format!("field sweeps: {} ms", t2.elapsed().as_millis()));
+    let t4 = std::time::Instant::now();
+    containers::run(ctx, &ring);
+    ctx.note(&format!("containers x session keys: {} ms", t4.elapsed().as_millis()));
+    let t5 = std::time::Instant::now();
+    sigs::run(ctx);
+    ctx.note(&format!("hostile signature values: {} ms", t5.elapsed().as_millis()));
+    let t6 = std::time::Instant::now();
+    rae::run(ctx);
+    ctx.note(&format!("read after error: {} ms", t6.elapsed().as_millis()));
     let t3 = std::time::Instant::now();
     child::run(ctx, &ring);
     ctx.note(&format!("child batches: {} ms", t3.elapsed().as_millis()));
